@@ -160,6 +160,26 @@ class History(object):
             else:
                 res = sim.ml_actions.Result(cancel=True)
             r = sim.call(cl.on_action_complete, a['id'], res)
+        elif k == 'update_defs':
+            # the definitions are updated while executions of the old ones
+            # are in flight (every task additionally routes to a new task):
+            # running executions keep the definition they were started with
+            import copy
+            from mv.gen import workflows as G
+            mod = copy.deepcopy(self.case['prog'])
+            for p_ in [mod] + list(mod.get('subs') or []):
+                if p_['type'] != 'direct':
+                    continue
+                for nm in list(p_['order']):
+                    p_['tasks'][nm]['on-complete'] = list(
+                        p_['tasks'][nm].get('on-complete') or []) + [
+                        {'to': 'zz_upd', 'guard': None}]
+                p_['tasks']['zz_upd'] = G.new_task()
+                p_['tasks']['zz_upd']['form'] = {'action': 'noop'}
+                p_['order'] = list(p_['order']) + ['zz_upd']
+            text = G.render_all(mod)
+            rec['target'] = ('defs', None, None, None)
+            r = sim.call(lambda: sim.wf_service.update_workflows(text))
         elif k == 'lose_cas':
             # fault below the transaction granularity: the next completion
             # of the root execution loses its compare-and-swap against a
